@@ -3019,6 +3019,20 @@ func (c S3ApiController) DeleteObjects(ctx *fiber.Ctx) error {
 			})
 	}
 
+	// Keys come from the request body, so the URL checks have not seen
+	// them: "." and ".." elements would be resolved by the backend
+	for _, obj := range dObj.Objects {
+		if utils.HasDotSegment(getstring(obj.Key)) || strings.Contains(getstring(obj.VersionId), "/") {
+			return SendResponse(ctx, s3err.GetAPIError(s3err.ErrInvalidRequest),
+				&MetaOpts{
+					Logger:      c.logger,
+					MetricsMng:  c.mm,
+					Action:      metrics.ActionDeleteObjects,
+					BucketOwner: parsedAcl.Owner,
+				})
+		}
+	}
+
 	// The access decision is taken per object: every key of the batch
 	// must be allowed on its own resource
 	for _, obj := range dObj.Objects {
